@@ -16,6 +16,7 @@ import Cacache.Lemmas.Linearize
 import Cacache.Lemmas.LinearizeLs
 import Cacache.Lemmas.LinearizeRead
 import Cacache.Lemmas.TwoWriters
+import Cacache.Lemmas.Gaps
 
 namespace Cacache.C07x
 open Prog Refine Linearize ListRefine LinearizeLs
@@ -507,5 +508,44 @@ theorem no_finished_insert_lost (ops : List IOp) (hops : ∀ op ∈ ops, OpWF cf
         refine Or.inr ⟨rfl, fun env' => ?_⟩
         rw [hfind env', hval]; simp [specStep]
       | look k => exact absurd hy' (by simp [IOp.writes])
+
+
+/-! ### From `Lemmas/Gaps.lean`: the reader is `exists`, the writers are by-address -/
+
+/-- **`exists_hash sri ∥` a whole writer** - keyed or by address, of any bytes (in particular the
+bytes `sri` addresses), any flavour / options / chunking; every schedule: `exists` answers as alone
+before or alone after the whole write, and the writer's answer and final state are its own. -/
+theorem existsHash_anyWriter_linearizable {γ : Type} (f : Res Integrity → γ) (g : Res Bool → γ)
+    (fl : Flavour) (key : Option Bytes) (o : WriteOpts) (chunks : List Bytes) (sri : Integrity)
+    (fs : FS) (hpl : LinearizeRead.PlainAt cache fs sri) (sched : List Nat) :
+    (∀ c, FinishedWith env [(writeStream cfg cache fl key o chunks).mapRes f,
+        (existsHash cache sri).mapRes g] fs sched 1 c →
+      c = g (run env (existsHash cache sri) fs).1 ∨
+      c = g (run env (existsHash cache sri)
+        (run env (writeStream cfg cache fl key o chunks) fs).2.1).1) ∧
+    (∀ c, FinishedWith env [(writeStream cfg cache fl key o chunks).mapRes f,
+        (existsHash cache sri).mapRes g] fs sched 0 c →
+      c = f (run env (writeStream cfg cache fl key o chunks) fs).1 ∧
+      (interleave env [(writeStream cfg cache fl key o chunks).mapRes f,
+        (existsHash cache sri).mapRes g] fs sched).2 =
+        (run env (writeStream cfg cache fl key o chunks) fs).2.1) :=
+  Gaps.existsHash_anyWriter_linearizable cfg env cache f g fl key o chunks sri fs hpl sched
+
+open TwoWriters CacheRefine in
+/-- **`write_hash ∥ write_hash`**: two whole by-address writers of ANY data (the same bytes, different
+bytes, colliding digests included), any flavours and algorithms, from a healthy cache, after EVERY
+schedule that finishes both: healthy, no temp file left, and both answers and the final abstract cache
+are those of one of the two serial orders.  No collision hypothesis: that one is about two writers of
+the SAME KEY, and by-address writers have none. -/
+theorem writeHash_writeHash_serializable (hl : HexLen cfg) (fl0 fl1 : Flavour) (a0 a1 : Algo)
+    (d0 d1 : Bytes) (fs : FS) (hH : Healthy cfg cache fs) (sched : List Nat)
+    (c0 c1 : Res Integrity ⊕ Res Integrity)
+    (f0 : Linearize.FinishedWith env [(writeHash cfg fl0 cache a0 d0).mapRes Sum.inl,
+      (writeHash cfg fl1 cache a1 d1).mapRes Sum.inr] fs sched 0 c0)
+    (f1 : Linearize.FinishedWith env [(writeHash cfg fl0 cache a0 d0).mapRes Sum.inl,
+      (writeHash cfg fl1 cache a1 d1).mapRes Sum.inr] fs sched 1 c1) :
+    Serializable cfg env cache (writeHash cfg fl0 cache a0 d0) (writeHash cfg fl1 cache a1 d1)
+      fs sched c0 c1 :=
+  Gaps.writeHash_writeHash_serializable cfg env cache hl fl0 fl1 a0 a1 d0 d1 fs hH sched c0 c1 f0 f1
 
 end Cacache.C07x
